@@ -244,3 +244,47 @@ Qed.
 Theorem swap_vertex_exactly_when a b s : a <> b -> vbu s = true ->
   (edges (swap_vertex_indices a b s) = map (swap_ends a b) (edges s) <-> edges_found s a b).
 Proof. exact (swap_vertex_edges_relabeled_iff a b s). Qed.
+
+(* ---------------------------------------------------------------- the exactness invariant of C01 survives the relabeling *)
+Lemma swap_idx_lt_v a b n x : a < n -> b < n -> (swap_idx a b x < n <-> x < n).
+Proof. intros Ha Hb. unfold swap_idx. destruct (Nat.eqb_spec x a); [lia|]. destruct (Nat.eqb_spec x b); lia. Qed.
+
+Lemma he_from_vertex_relabeled a b s h : h / 2 < ne s -> he_from (vertex_relabeled a b s) h = swap_idx a b (he_from s h).
+Proof.
+  intros Hh. unfold he_from. rewrite edge_at_vertex_relabeled by exact Hh. destruct (edge_at s (h / 2)) as [x y].
+  unfold swap_ends. cbn [fst snd]. destruct (Nat.even h); reflexivity.
+Qed.
+
+Theorem bu_inv_vertex_relabeled a b s : a <> b -> a < nv s -> b < nv s -> bu_inv s -> bu_inv (vertex_relabeled a b s).
+Proof.
+  intros N Ha Hb (VO & EO & FO & (R1 & R2 & R3) & (L1 & L2 & L3 & L4 & L5 & L6)).
+  assert (NE : ne (vertex_relabeled a b s) = ne s) by (unfold ne, vertex_relabeled; rsv; apply map_length).
+  split; [|split; [|split; [exact FO|split; [split; [|split; [|exact R3]]|]]]].
+  - (* vbu_ok *)
+    intros V v Hv h. change (vbu s = true) in V. change (v < nv s) in Hv. specialize (L1 V).
+    rewrite out_at_vertex_relabeled by (try assumption; lia).
+    rewrite (VO V (swap_idx a b v) (proj2 (swap_idx_lt_v a b (nv s) v Ha Hb) Hv) h), NE.
+    change (e_deleted (vertex_relabeled a b s) (h / 2)) with (e_deleted s (h / 2)).
+    split; intros (A & B & C); (split; [exact A|split; [exact B|]]).
+    + rewrite he_from_vertex_relabeled by exact A. rewrite C. apply swap_idx_involutive.
+    + rewrite he_from_vertex_relabeled in C by exact A. rewrite <- C. symmetry. apply swap_idx_involutive.
+  - (* ebu_ok *)
+    intros E h Hh x. rewrite NE in Hh. exact (EO E h Hh x).
+  - (* refs_ok, edges *)
+    intros e He D. rewrite NE in He. change (e_deleted s e = false) in D. rewrite edge_at_vertex_relabeled by exact He.
+    destruct (R1 e He D) as [A B]. unfold swap_ends. cbn [fst snd]. change (nv (vertex_relabeled a b s)) with (nv s).
+    split; apply (swap_idx_lt_v a b (nv s) _ Ha Hb); assumption.
+  - (* refs_ok, faces *)
+    intros f Hf D h Hin. rewrite NE. exact (R2 f Hf D h Hin).
+  - (* lens_ok *)
+    unfold lens_ok. rewrite NE. unfold vertex_relabeled. rsv. split; [|split; [exact L2|split; [exact L3|split; [exact L4|split; [exact L5|exact L6]]]]].
+    intros V. rewrite V, swap_nth_length. exact (L1 V).
+Qed.
+
+(* so: a vertex swap keeps the caches exact, provided no deferred-deleted edge ends at a or b *)
+Theorem bu_inv_swap_vertex a b s : a < nv s -> b < nv s -> bu_inv s -> no_deleted_edge_at s a b -> bu_inv (swap_vertex_indices a b s).
+Proof.
+  intros Ha Hb B HD. destruct (Nat.eq_dec a b) as [->|N]; [rewrite swap_vertex_self; exact B|].
+  pose proof B as (VO & EO & FO & R & L).
+  rewrite (swap_vertex_exact_relabeling a b s N Ha Hb VO HD). apply bu_inv_vertex_relabeled; assumption.
+Qed.
